@@ -77,7 +77,7 @@ def gen_cases(rng, tier):
     per = 80 if tier == "thorough" else 60
     cases = []
     ctxs = [_qty.predefined_ctx() for _ in range(n_pre)] + \
-           [_qty.user_ctx(rng, rng.randint(8, 14), odd_symbols=.6) for _ in range(n_user)]
+           [_qty.user_ctx(rng, rng.randint(8, 14), odd_symbols=.6, blank_symbols=True) for _ in range(n_user)]
     for ctx in ctxs:
         ops = []
         plain = [u for u in ctx.units if ctx.units[u]["scale"] is None or ctx.quantum(u) is None]
@@ -149,6 +149,12 @@ def gen_cases(rng, tier):
         for f in [0.1, 1e-300, 5e-324, 1.7976931348623157e308, 123456.789, -0.0, 2.5]:
             u = rng.choice(plain)
             ops.append(["q_mk", rng.choice(["-", ctx.units[u]["cls"]]), "L:" + rat(Fraction(f)), u, MODE])
+        # ... and through `number * unit` / `unit * number` (the other documented
+        # way to construct): the same exact value, also into quantised units
+        qfl = [u for u in ctx.linear_units() if ctx.quantum(u) is not None]
+        for f in [0.1, 1e300, 5e-324, 1.015, 123456.789, 2.675, 0.07]:
+            u = rng.choice(qfl) if qfl and rng.random() < .4 else rng.choice(plain)
+            ops.append(["u_num", rng.choice(["mul", "rmul"]), u, "L:" + rat(Fraction(f)), MODE])
         # numbers with more significant digits than any default precision (the
         # standard library's context rounds to 28), as both kinds of Decimal,
         # Fraction, int and text: held exactly
@@ -276,6 +282,10 @@ def oracle(case, impl):
                     exp = "ok " + ctx.qty(ctx.grid(target, a, o[4]), target)
             if out != exp:
                 fails.append({"site": "text:parse", "msg": f"{o} -> {out}, expected {exp}"})
+        elif o[0] == "u_num":
+            exp = "ok " + ctx.qty(ctx.grid(o[2], _qty.tok_value(o[3]), o[4]), o[2])
+            if out != exp:
+                fails.append({"site": "text:construct", "msg": f"{o} -> {out}, expected {exp}"})
         elif o[0] == "q_mk":
             exp = "ok " + ctx.qty(ctx.grid(o[3], _qty.tok_value(o[2]), o[4]), o[3])
             if o[1] not in ("-", ctx.units[o[3]]["cls"]):
